@@ -39,7 +39,7 @@ for f in $PLACED; do rm -f "$S/$f"; done
 ( cd "$S" && go test -vet=off -count=1 ./... ) >"$S/.suite.out" 2>&1 && echo "EXISTING SUITE with change: ok" || { echo "EXISTING SUITE with change: FAIL"; grep -E '^(--- FAIL|FAIL)' "$S/.suite.out" | head; }
 for P in "$@"; do
   mkdir -p "$S/.verif"; cp "$D/known-findings.txt" "$S/.verif/" 2>/dev/null
-  OUT="$(VERIF_DIR="$S/.verif" "$D/bin/gtfscheck" -property "$P" -tier quick -repo "$S" 2>&1)"
+  OUT="$(VERIF_DIR="$S/.verif" "${BIN:-$D/bin/gtfscheck}" -property "$P" -tier quick -repo "$S" 2>&1)"
   if echo "$OUT" | grep -q '^VIOLATION'; then
     echo "CHECK $P: CAUGHT"; echo "$OUT" | grep -E '^(VIOLATED|UNDECIDED|ANALYSER)' -A2 | grep -v '^VIOLATION' | head -12
   else
